@@ -37,86 +37,60 @@ example : vlq 0 = [0x00] ∧ vlq 0x7F = [0x7F] ∧ vlq 0x80 = [0x81, 0x00] ∧ v
 
 /-- `_read_track` decodes every well-formed track: ALL event lists — channel messages 0x80 … 0xEF with one or two
 data bytes, with the status byte or under running status, sysex F0 / F7, meta events of any type and length, set-tempo,
-every delta-time below 2^28 — give the list of `(deltasum, MIDI, delta)` and the list of `(deltasum, TEMPO, µs)` -/
+every delta-time below 2^28 — give the tick at which the track ends (the sum of all delta-times) and its tempo changes
+`(tick, µs per quarter)` in file order -/
 theorem smf_track_decodes (evs : List Event) (ok : eventsOK none evs) :
-    Smf.readTrack (renderEvents evs) = .ok (Smf.midiList evs 0, Smf.tempoList evs 0) :=
+    Smf.readTrack (renderEvents evs) = .ok (endTick evs, tempoMap evs) :=
   Smf.readTrack_events evs ok
 
-/-- `_read_midi_length` on EVERY well-formed file (format 0 or 1, any ticks-per-quarter division 1 … 32767, up to 65535
-tracks): the division and, per track, mutagen's parts — `parts(sorted(events + tempos'))` (`Smf.mutagenTracks`) — of the
-event lists the file encodes; no hypothesis on where the tempo changes lie -/
-theorem smf_file_reads (f : File) (ok : f.OK) :
-    Smf.parse f.build = .ok { tickdiv := f.division, tracks := Smf.mutagenTracks f.format f.tracks none } :=
+/-- C05 for SMF: on EVERY well-formed file — format 0 (one track) or 1 (up to 65535 tracks), any ticks-per-quarter
+division 1 … 32767, any well-formed event lists, tempo changes anywhere — `SMFInfo` reports what the file encodes
+(`File.expected`): per track the stretches of constant tempo up to its end (500000 µs per quarter until the first
+set-tempo event; the track's own tempo changes in format 0, the first track's in format 1), the length being
+max over tracks of Σ ticks / division · tempo / 10^6.  No hypothesis beyond well-formedness since /repo ea48877. -/
+theorem smf_info_decodes (f : File) (ok : f.OK) : Smf.parse f.build = .ok f.expected :=
   Smf.parse_build f ok
 
-/-- C05 for SMF.  PARTIAL: on `Aligned` files — nothing but channel messages carries a delta-time; the set-tempo events
-of the governing track (the track itself in format 0, the first track in format 1) all at tick 0 and in ascending order
-of their values; in format 1 a tempo map, if there is one, is in the first track — the parts mutagen adds up are the
-stretches of constant tempo of the specification (`File.expected`), so the length is
-max over tracks of Σ ticks / division · tempo / 10^6.  Outside `Aligned` mutagen deviates: `smf_*_witness` below. -/
-theorem smf_info_decodes_partial (f : File) (ok : f.OK) (al : f.Aligned) : Smf.parse f.build = .ok f.expected :=
-  Smf.parse_aligned f ok al
-
-/-! ### the deviations (each a well-formed file; replayed on the implementation by harness/info_tie_b.py) -/
+/-! ### the four files on which the code used to deviate (before ea48877) now decode to the encoded length -/
 
 def noteOn (delta : Nat) : Event := ⟨delta, .midi 0x90 60 (some 64) false⟩
 def noteOff (delta : Nat) : Event := ⟨delta, .midi 0x80 60 (some 0) false⟩
 def endOfTrack (delta : Nat) : Event := ⟨delta, .metaEv 0x2F []⟩
 
-/-- a note held for 480 ticks and then End of Track 480 ticks later (division 480): the track lasts 960 ticks = 1.0 s;
-mutagen counts the delta-times of channel messages only: 480 ticks = 0.5 s -/
+/-- a note held for 480 ticks and then End of Track 480 ticks later (division 480): 960 ticks = 1.0 s (was 0.5) -/
 def wEot : File := ⟨0, 480, [[noteOn 0, noteOff 480, endOfTrack 480]]⟩
+example : Smf.parse wEot.build = .ok { tickdiv := 480, tracks := [[(960, 500000)]] } := by decide +kernel
 
-theorem smf_meta_delta_witness :
-    Smf.parse wEot.build = .ok { tickdiv := 480, tracks := [[(480, 500000)]] } ∧
-    wEot.expected = { tickdiv := 480, tracks := [[(960, 500000)]] } := by
-  constructor <;> decide +kernel
-
-/-- a tempo change in the middle: 480 ticks at 500000, then set-tempo 1000000, then 480 ticks: 0.5 s + 1.0 s;
-mutagen sorts the tempo event in front of the note that ends at the same tick and charges both stretches to the new
-tempo: 2.0 s -/
+/-- a tempo change in the middle: 480 ticks at 500000, then 480 ticks at 1000000: 1.5 s (was 2.0) -/
 def wMid : File := ⟨0, 480, [[noteOn 480, ⟨0, .tempo 1000000⟩, noteOff 480]]⟩
+example : Smf.parse wMid.build = .ok { tickdiv := 480, tracks := [[(480, 500000), (480, 1000000)]] } := by decide +kernel
 
-theorem smf_tempo_change_witness :
-    Smf.parse wMid.build = .ok { tickdiv := 480, tracks := [[(0, 500000), (960, 1000000)]] } ∧
-    wMid.expected = { tickdiv := 480, tracks := [[(480, 500000), (480, 1000000)]] } := by
-  constructor <;> decide +kernel
-
-/-- two set-tempo events at tick 0, the slower one first: the later one is in force (250000: 0.25 s for 480 ticks);
-mutagen's sort orders them by value, so the larger value wins (1000000: 1.0 s) -/
+/-- two set-tempo events at tick 0: the later one is in force: 0.25 s (was 1.0) -/
 def wTwo : File := ⟨0, 480, [[⟨0, .tempo 1000000⟩, ⟨0, .tempo 250000⟩, noteOn 0, noteOff 480]]⟩
+example : Smf.parse wTwo.build = .ok { tickdiv := 480, tracks := [[(0, 500000), (0, 1000000), (480, 250000)]] } := by
+  decide +kernel
 
-theorem smf_tempo_order_witness :
-    Smf.parse wTwo.build = .ok { tickdiv := 480, tracks := [[(0, 500000), (0, 250000), (480, 1000000)]] } ∧
-    wTwo.expected = { tickdiv := 480, tracks := [[(0, 500000), (0, 1000000), (480, 250000)]] } := by
-  constructor <;> decide +kernel
-
-/-- format 1 with the tempo map in the SECOND track: by the specification it belongs in the first and this one is not
-the tempo map; mutagen takes the first non-empty tempo list it meets, for the tracks from there on -/
+/-- format 1 with a set-tempo event in the SECOND track: not part of the tempo map: 0.5 s for both tracks (was 1.0) -/
 def wSecond : File := ⟨1, 480, [[noteOn 0, noteOff 480], [⟨0, .tempo 1000000⟩, noteOn 0, noteOff 480]]⟩
+example : Smf.parse wSecond.build = .ok { tickdiv := 480, tracks := [[(480, 500000)], [(480, 500000)]] } := by decide +kernel
 
-theorem smf_tempo_track_witness :
-    Smf.parse wSecond.build = .ok { tickdiv := 480, tracks := [[(480, 500000)], [(0, 500000), (480, 1000000)]] } ∧
-    wSecond.expected = { tickdiv := 480, tracks := [[(480, 500000)], [(480, 500000)]] } := by
-  constructor <;> decide +kernel
+/-- a tempo change behind the end of a track (format 1, the tempo track longer than the other): an empty stretch -/
+def wBeyond : File := ⟨1, 480, [[⟨0, .tempo 250000⟩, ⟨960, .tempo 1000000⟩, endOfTrack 0], [noteOn 0, noteOff 480]]⟩
+example : Smf.parse wBeyond.build =
+    .ok ⟨480, [[(0, 500000), (960, 250000), (0, 1000000)], [(0, 500000), (480, 250000), (0, 1000000)]]⟩ := by decide +kernel
 
-/-- the witnesses are well-formed files, and none of them is `Aligned` for the reason given -/
-example : wEot.OK ∧ wMid.OK ∧ wTwo.OK ∧ wSecond.OK := by
-  refine ⟨?_, ?_, ?_, ?_⟩ <;>
-    (refine ⟨by decide, by decide, by decide, by decide, ?_⟩; intro t ht; simp [wEot, wMid, wTwo, wSecond] at ht;
-     rcases ht with rfl | rfl <;> exact ⟨by simp [eventsOK, Event.OK, nextPrev, noteOn, noteOff, endOfTrack], by decide +kernel⟩)
+/-- these are well-formed files (`smf_info_decodes` applies to them) -/
+example : wEot.OK ∧ wMid.OK ∧ wTwo.OK ∧ wSecond.OK ∧ wBeyond.OK := by decide +kernel
 
-/-- the hypotheses of `smf_info_decodes_partial` are satisfiable: format 1, a tempo track with two tempo events at
-tick 0 (ascending), a track with running status, a sysex and a text event at delta 0 -/
+/-- … as is a file with running status, a sysex and a text event carrying delta-times -/
 def goodFile : File :=
-  ⟨1, 96, [[⟨0, .tempo 400000⟩, ⟨0, .tempo 600000⟩, endOfTrack 0],
-           [noteOn 0, ⟨96, .midi 0x90 60 (some 0) true⟩, ⟨0, .metaEv 0x01 [104, 105]⟩, ⟨0, .sysex 0xF0 [0x7E, 0xF7]⟩,
-            ⟨200, .midi 0xC1 5 none false⟩, endOfTrack 0]]⟩
+  ⟨1, 96, [[⟨0, .tempo 400000⟩, ⟨48, .tempo 600000⟩, endOfTrack 0],
+           [noteOn 0, ⟨96, .midi 0x90 60 (some 0) true⟩, ⟨10, .metaEv 0x01 [104, 105]⟩, ⟨5, .sysex 0xF0 [0x7E, 0xF7]⟩,
+            ⟨200, .midi 0xC1 5 none false⟩, endOfTrack 7]]⟩
 
-example : goodFile.OK ∧ goodFile.Aligned := by decide +kernel
+example : goodFile.OK := by decide +kernel
 
-example : Smf.parse goodFile.build = .ok goodFile.expected ∧
-    goodFile.expected = { tickdiv := 96, tracks := [[(0, 500000), (0, 400000), (0, 600000)], [(0, 500000), (0, 400000), (296, 600000)]] } := by
-  constructor <;> decide +kernel
+example : goodFile.expected =
+    ⟨96, [[(0, 500000), (48, 400000), (0, 600000)], [(0, 500000), (48, 400000), (270, 600000)]]⟩ := by decide +kernel
 
 end Mutagen.C05
